@@ -7,6 +7,10 @@ HERE = os.path.dirname(os.path.dirname(os.path.abspath(__file__)))
 
 # id: (engine, level, technique, text, note, design_ref)
 CHECKS = {
+    "C19": ("H", "model_checking",
+            "explicit-state exploration of call/restart histories of the real providers on a private file, integer-counter reference model",
+            "Every history over {next, get_and_increment, current, restart} up to the depth bound, the state-hashed fixpoint for small widths, and a full cycle with a restart at every inter-call point for larger widths are executed on the real providers; every returned value and the file content after every call are compared with a counter modulo 2^w; the rejection alphabet must raise ValueError / FileNotFoundError.",
+            "crash points = inter-call points only (as the property states); private temporary directory with ordinary POSIX file semantics", "4/C19"),
     "C13": ("H", "model_checking",
             "explicit enumeration of all append/parse schedules of bounded byte streams against the real parser, byte-string reference model",
             "Every schedule in {no cut, cut, cut+parse}^(n-1) of every stream in the bounded alphabet (or every cut set up to the cut bound for long streams) is executed on the real parse_space_packets with a real deque; after every call the returned packets and the queue content are compared with the byte-string model.",
